@@ -38,6 +38,8 @@ EXPLANATION += (" R-C13-8: array data is attached to the object's index position
 EXPLANATION += (" R-C13-7: the object is aligned directly with the caller's parameter only where an isinstance test excludes the combination DataFrame object / Series parameter (which is otherwise wrapped into a one-column frame).")
 EXPLANATION += (' R-C13-9 (shared with R-C14-11): after `a, b = x.broadcast(y)` neither result is re-ordered on its own (sort_index, sort_values, sample, reindex, stepped slice) - the consumers combine the two row by row; built-in example.')
 EXPLANATION += (' R-C13-10: no broadcast frame is built as pd.DataFrame(<list of the Series object>) without an explicit index (pandas would label the rows with the object\'s name); built-in example.')
+EXPLANATION += (" R-C13-11: the rule R-C12-8 evaluated for this property (the consumer of the broadcast in the mean stress transformation of a matrix puts the levels of the broadcast result into the order of the matrix and re-indexes it by the matrix's index before anything is combined by position).")
+EXPLANATION += (" R-C13-12: the index levels cached by the broadcaster are read as pandas Index objects only - not through .values / .to_numpy() / np.asarray / .tolist(), which change the type of time-zone aware, categorical, interval and nullable keys.")
 ASSUMPTIONS = [
     "pandas DataFrame.align(Series, axis=0) may return the frame with its previous index when the joined index requires no row "
     "movement on the frame side (behaviour of the installed pandas; the repository wraps the series for that reason)",
@@ -324,6 +326,8 @@ def run(ctx):
     ctx.attempt(_r8)
     ctx.attempt(_r9)
     ctx.attempt(_r10)
+    ctx.attempt(_r11)
+    ctx.attempt(_r12)
 
 
 def _kind_tests(test):
@@ -488,6 +492,72 @@ def frames_from_series_lists(fn_node):
                             for e in elts):
                 out.append(c)
     return out
+
+
+DTYPE_LOSERS = ("values", "to_numpy", "tolist", "to_list", "array", "astype", "to_flat_index")
+
+
+def key_type_losses(cls_node):
+    """the keys of the operands are kept as pandas Index objects (self.<dict>[name] = <index>.unique()); expressions that read them
+    through .values / .to_numpy() / np.asarray / .tolist() return plain numpy values - time-zone aware timestamps, categoricals,
+    intervals and nullable integers come back as something else: [(node, text)]"""
+    stores = set()
+    for n in ast.walk(cls_node):
+        if isinstance(n, ast.Assign):
+            for t in n.targets:
+                if isinstance(t, ast.Subscript) and is_self_attr(t.value) and isinstance(n.value, ast.Call) and \
+                        isinstance(n.value.func, ast.Attribute) and n.value.func.attr in ("unique", "get_level_values", "append", "drop_duplicates", "union"):
+                    stores.add(t.value.attr)
+    out = []
+    for n in ast.walk(cls_node):
+        base = None
+        if isinstance(n, ast.Attribute) and n.attr in DTYPE_LOSERS:
+            base = n.value
+        elif isinstance(n, ast.Call) and (call_name(n) or "") in ("np.asarray", "np.array", "list", "np.asanyarray") and n.args:
+            base = n.args[0]
+        if base is None:
+            continue
+        while isinstance(base, ast.Subscript) and not (is_self_attr(base.value) and base.value.attr in stores):
+            base = base.value
+        if isinstance(base, ast.Subscript) and is_self_attr(base.value) and base.value.attr in stores:
+            out.append((n, norm_text(n)[:80]))
+    return out
+
+
+def _r12(ctx):
+    """R-C13-12: the result rows carry the operands' own keys.  The level cache keeps the keys as pandas Index objects; the real
+    index of the result is made by indexing those objects.  Reading them through .values / .to_numpy() / np.asarray turns
+    time-zone aware timestamps into naive UTC values (categoricals, intervals, nullable integers likewise change type): rows
+    with keys the operand does not have."""
+    prog = ctx.prog
+    ctx.rule("R-C13-12", floor=1, what="cached index levels are read as Index objects, not through .values / np.asarray")
+    ex = ast.parse("class K:\n    def __init__(self, o):\n        self.lv = {}\n        self.lv['a'] = o.index.get_level_values('a').unique()\n"
+                   "    def back(self, c):\n        return self.lv['a'].values[c], self.lv['a'][c]\n").body[0]
+    if len(key_type_losses(ex)) != 1:
+        raise AnalysisError("R-C13-12 built-in example not matched")
+    n = 0
+    for k, ci in sorted(prog.classes.items()):
+        if ci.module.name != MOD:
+            continue
+        n += 1
+        hits = key_type_losses(ci.node)
+        for node, text in hits:
+            fi = next((f[-1] for f in ci.methods.values() if any(x is node for x in ast.walk(f[-1].node))), ci.key)
+            ctx.violated(fi, node, "%s reads the cached index level through %s: the keys lose their pandas type (a time-zone aware level "
+                         "comes back as naive UTC timestamps), the result rows carry keys the operand does not have" % (ci.name, text),
+                         text="cached level read through " + text.split("[")[0][-30:])
+        if not hits:
+            ctx.holds(ci.key, None, "%s: cached index levels are only indexed as Index objects" % ci.name)
+    if n == 0:
+        raise AnalysisError("no class found in the broadcaster module")
+
+
+def _r11(ctx):
+    """R-C13-11 (the rule R-C12-8 evaluated for this property): 'every calculation built on the broadcast equals the element-by-element
+    result' - the histogram accessor of the mean stress transformation combines the broadcast result with the rows of the caller's
+    matrix by position; it has to bring the levels into the matrix's order and re-index by the matrix's index first."""
+    from .c12 import _r8
+    _r8(ctx, "R-C13-11")
 
 
 def _r10(ctx):
